@@ -533,7 +533,14 @@ def wrap32(x):
         if isinstance(x, symx.SymNum) and not x.isf:
             symx.current().assume(z3.And(x.e >= -2 ** 31, x.e < 2 ** 31))
             return x
-    return ((x + 2 ** 31) % (2 ** 32)) - 2 ** 31
+    w = ((x + 2 ** 31) % (2 ** 32)) - 2 ** 31
+    if isinstance(x, int) and w != x:
+        global WRAPPED
+        WRAPPED = True          # a concrete evaluation left the 32-bit range (read by gates that compare on the no-overflow domain)
+    return w
+
+
+WRAPPED = False
 
 
 def u32(x):
